@@ -1742,7 +1742,12 @@ class EAStorySwap(ElementAction):
         """
         Merge into the :class:`RunningOrder` object provided.
         """
-        source_story_1, source_story_2 = self.stories
+        source_stories = self.stories
+        if len(source_stories) != 2:
+            raise MosMergeError(
+                f"{self.__class__.__name__} error in {self.message_id} - exactly two stories must be given"
+            )
+        source_story_1, source_story_2 = source_stories
         story1, story1_index = find_child(parent=ro.base_tag, child_tag='story', id=source_story_1.id)
         if story1 is None:
             raise MosMergeError(
@@ -1753,10 +1758,9 @@ class EAStorySwap(ElementAction):
             raise MosMergeError(
                 f"{self.__class__.__name__} error in {self.message_id} - story 2 not found"
             )
-        remove_node(parent=ro.base_tag, node=story1)
-        remove_node(parent=ro.base_tag, node=story2)
-        insert_node(parent=ro.base_tag, node=story2, index=story1_index)
-        insert_node(parent=ro.base_tag, node=story1, index=story2_index)
+        # exchange in place: no other story moves
+        ro.base_tag[story1_index] = story2
+        ro.base_tag[story2_index] = story1
         return ro
 
     def inspect(self):
@@ -1815,7 +1819,12 @@ class EAItemSwap(ElementAction):
             raise MosMergeError(
                 f"{self.__class__.__name__} error in {self.message_id} - story not found"
             )
-        source_item_1, source_item_2 = self.items
+        source_items = self.items
+        if len(source_items) != 2:
+            raise MosMergeError(
+                f"{self.__class__.__name__} error in {self.message_id} - exactly two items must be given"
+            )
+        source_item_1, source_item_2 = source_items
         item1, item1_index = find_child(parent=story, child_tag='item', id=source_item_1.id)
         if item1 is None:
             raise MosMergeError(
@@ -1826,10 +1835,9 @@ class EAItemSwap(ElementAction):
             raise MosMergeError(
                 f"{self.__class__.__name__} error in {self.message_id} - item 2 not found"
             )
-        remove_node(parent=story, node=item1)
-        remove_node(parent=story, node=item2)
-        insert_node(parent=story, node=item2, index=item1_index)
-        insert_node(parent=story, node=item1, index=item2_index)
+        # exchange in place: no other item moves
+        story[item1_index] = item2
+        story[item2_index] = item1
         return ro
 
     def inspect(self):
